@@ -9,6 +9,9 @@ package encrypted_leaseset
 //@ import "github.com/go-i2p/common/offline_signature"
 //@ import sig "github.com/go-i2p/common/signature"
 //@ import "crypto/ed25519"
+//@ import "time"
+//@ import "github.com/go-i2p/common/destination"
+//@ import "github.com/go-i2p/common/key_certificate"
 
 //@ spec func be32(v uint32) []byte { return []byte{byte(v >> 24), byte(v >> 16), byte(v >> 8), byte(v)} }
 //@ spec func be16(v uint16) []byte { return []byte{byte(v >> 8), byte(v)} }
@@ -98,5 +101,18 @@ package encrypted_leaseset
 //@     assert(e2 == nil && len(rem) == 0)
 //@     b2, e3 := (&back).Bytes()
 //@     assert(e3 == nil && seqeq(b2, b))
+//@   }
+//@ }
+
+// ---- C09: a blinded Destination obeys the Destination key-type policy (in
+// particular it never declares Ed25519ph), whatever Destination goes in.
+//@ option C09_BlindedDestinationPolicy nocontract *
+//@ lemma C09_BlindedDestinationPolicy(data []byte, secret []byte, date time.Time) {
+//@   d, _, err := destination.ReadDestination(data)
+//@   assume(err == nil)
+//@   bd, e := CreateBlindedDestination(d, secret, date)
+//@   if e == nil {
+//@     assert(bd.KeysAndCert != nil && bd.KeysAndCert.KeyCertificate != nil)
+//@     assert(destination.PermittedDest(key_certificate.SigType(bd.KeysAndCert.KeyCertificate), key_certificate.CryptoType(bd.KeysAndCert.KeyCertificate)))
 //@   }
 //@ }
